@@ -63,7 +63,11 @@ def task_bdd(t):
     cares = [None] + [set(c) for c in sweep.subsets(names)]
     fs = sorted(refs)
     mine = sweep.shard(fs, ns)[si]
+    _decoy = sweep.Decoy(names, twin_of=bdd)
     for fu in mine:
+        _bad = _decoy.poke()
+        if _bad:
+            rec('second-manager:' + _bad, _bad, dict(task=t))
         if focus is not None and fu != focus:
             continue
         u = h[fu]
